@@ -30,6 +30,11 @@ func (r *fullResponseCollector) CollectResponse(ctx context.Context, peerId, obj
 		return ErrUnexpectedResponseType
 	}
 	if r.objectTree == nil {
+		if treeResp.Root == nil {
+			// the root change is an optional field of the wire message: a response
+			// without it cannot create a tree
+			return objecttree.ErrEmptyChange
+		}
 		createPayload := treestorage.TreeStorageCreatePayload{
 			RootRawChange: treeResp.Root,
 			Changes:       treeResp.Changes,
